@@ -107,6 +107,19 @@ def run(ctx):
                     okc = v_ == ("local", vec_slots[vec][1][1]) or (M.noref(v_) == M.noref(Tr.local(vec_slots[vec][1][1])) and M.noref(v_)[0] == "call") or (Tr.addr_of_term(v_) if hasattr(Tr, "addr_of_term") else None) == vec_slots[vec] or \
                         any(s_["k"] == "assign" and s_["r"]["k"] == "agg" and s_["r"].get("variant") == "Some" and s_["r"]["ops"] and s_["r"]["ops"][0]["k"] in ("move", "copy")
                             and Tr.origin_local(s_["r"]["ops"][0]) == vec_slots[vec][1][1] for s_ in rr.blocks[ob_.results[0][0]]["stmts"])
+            if okc:
+                # ... and "iff self.<stream> is held" decided by evaluation: with the stream absent the component is None, with it present it is
+                # Some(..) (the mutation sweep showed that the match form above no longer said *which* stream decides)
+                fld = ("field", ("param", 1, rr.local_name(1)), stream)
+                NONE_ = ("agg", ("adt", "std::option::Option", "None"), ())
+                def comp_under(v_):
+                    E_ = M.Explore(rr, assume_fn=lambda t_: v_ if (t_ and M.noref(M.strip(t_)) == fld) else None)
+                    t0 = M.Terms(rr, blocks=E_.blocks).local(0)
+                    if not (t0[0] == "agg" and t0[1] == "tuple" and len(t0[2]) == 2 and t0[2][1][0] == "agg" and t0[2][1][1] == "tuple" and len(t0[2][1][2]) == 2):
+                        return None
+                    return set(M.alts(t0[2][1][2][k]))
+                absent, present = comp_under(0), comp_under(1)
+                okc = absent == {NONE_} and present is not None and len(present) == 1 and next(iter(present))[0] == "agg" and next(iter(present))[1][:3] == ("adt", "std::option::Option", "Some")
             ctx.ob("R02.2", "read.result.%d=%s.map(%s)" % (k, stream, vec), okc, rr.loc(0), "component %d of the captured pair must be Some(%s) iff self.%s is held" % (k, vec, stream))
         err0 = r0[2][0] if good else None
         ctx.ob("R02.2", "read.error=read_into.err()", good and err0[0] == "call" and err0[1] == "std::result::Result::<T, E>::err" and err0[2][0][0] == "call" and err0[2][0][1] == RI, rr.loc(0), "the error component is read_into's error")
